@@ -221,7 +221,12 @@ func (g *c09Gen) node(d int) *cnode {
 		if g.rg.chance(1, 2) {
 			n := &cnode{kind: "cycle"}
 			for i := 0; i < 1+g.rg.intn(3); i++ {
-				n.args = append(n.args, cval{kind: 's', s: g.rg.pick([]string{"A", "B", "C", ""})})
+				if g.rg.chance(1, 2) {
+					// an argument whose value differs from one iteration to the next
+					n.args = append(n.args, g.val())
+				} else {
+					n.args = append(n.args, cval{kind: 's', s: g.rg.pick([]string{"A", "B", "C", ""})})
+				}
 			}
 			return n
 		}
@@ -596,6 +601,39 @@ func runC09(r *run) {
 			it.run(prog, &out)
 			a := w.args(src, ctx)
 			a = append(a, "-", "-", hx(out.String()))
+			emit(caseT{"render", a})
+		}
+		// what counts as true: every kind of value as the condition of if / elif, under and / or /
+		// not, and as an argument of firstof
+		tctx := append(append(gctx{}, ctx...), ctxEntry{"nil1", gNil()}, ctxEntry{"fh", gFloat("0.5")}, ctxEntry{"fq", gFloat("-0.25")}, ctxEntry{"ft", gFloat("0.000000001")}, ctxEntry{"fz", gFloat("0.0")},
+			ctxEntry{"f25", gFloat("2.5")}, ctxEntry{"fn", gFloat("-3.0")}, ctxEntry{"b1", gBool(true)}, ctxEntry{"b0", gBool(false)}, ctxEntry{"neg", gInt(-1)}, ctxEntry{"s0", gStr("0")}, ctxEntry{"sp", gStr(" ")})
+		for _, tv := range []struct {
+			e    string
+			t    bool
+			text string
+		}{{"fh", true, "0.500000"}, {"fq", true, "-0.250000"}, {"ft", true, "0.000000"}, {"fz", false, ""}, {"f25", true, "2.500000"}, {"fn", true, "-3.000000"}, {"0.5", true, "0.500000"}, {"0.25", true, "0.250000"},
+			{"0.0", false, ""}, {"one", true, "1"}, {"zero", false, ""}, {"neg", true, "-1"}, {"b1", true, "True"}, {"b0", false, ""}, {"nil1", false, ""}, {"nothere", false, ""}, {"s0", true, "0"}, {"sp", true, " "},
+			{"sempty", false, ""}, {"\"\"", false, ""}, {"\"x\"", true, "x"}, {"w0", false, ""}, {"m0", false, ""}, {"n0", false, ""}, {"w1", true, "-"}, {"mp", true, "-"}, {"str", true, "héy"}, {"0", false, ""}, {"7", true, "7"}} {
+			tf := func(b bool) string {
+				if b {
+					return "T"
+				}
+				return "F"
+			}
+			src := "{% autoescape off %}{% if " + tv.e + " %}T{% else %}F{% endif %}{% if zero %}a{% elif " + tv.e + " %}T{% else %}F{% endif %}{% if " + tv.e + " and one %}T{% else %}F{% endif %}" +
+				"{% if " + tv.e + " or zero %}T{% else %}F{% endif %}{% if not " + tv.e + " %}T{% else %}F{% endif %}{% if one %}{% if " + tv.e + " %}T{% else %}F{% endif %}{% endif %}"
+			want := tf(tv.t) + tf(tv.t) + tf(tv.t) + tf(tv.t) + tf(!tv.t) + tf(tv.t)
+			if tv.text != "-" {
+				src += "|{% firstof zero " + tv.e + " \"Z\" %}|{% firstof " + tv.e + " one %}"
+				if tv.t {
+					want += "|" + tv.text + "|" + tv.text
+				} else {
+					want += "|Z|1"
+				}
+			}
+			src += "{% endautoescape %}"
+			a := w.args(src, tctx)
+			a = append(a, "-", "-", hx(want))
 			emit(caseT{"render", a})
 		}
 		// ifequal and ifnotequal are complementary for EVERY pair of operands, whatever
